@@ -31,7 +31,20 @@ def tasks(tier):
         ts.append(Task('props.C03:t_inject', name='C03/wire.inject.%d' % K, K=K, timeout=600))
     ts.append(Task('props.C03:t_const', name='C03/wire.const-1d', K=1, timeout=900))
     ts.append(Task('props.C03:t_const', name='C03/wire.const-2d', K=2, timeout=900))
+    ts.append(Task('props.C03:t_equilibrium', name='C03/wire.phi_1D-closed-forms', timeout=600))
     return ts + bounded_tasks('C03', tier)
+
+
+def t_equilibrium():
+    """the starting densities are theta0 times a function that does not involve theta0, at EVERY grid point including the two ends (closed forms of
+    phi_1D_snm and phi_1D_genic, contracts of C01): linearity in theta0 of everything computed from them starts here"""
+    from contracts import py_wiring as W
+    rs = W.c01_phi_1D_snm() + W.c01_phi_1D_genic()
+    for r in rs:
+        r['id'] = r['id'].replace('C01/', 'C03/', 1)
+        if r.get('finding_key'):
+            r['finding_key'] = r['finding_key'].replace('C01/', 'C03/', 1)
+    return rs
 
 
 def t_step(K):
